@@ -337,6 +337,103 @@ def check(ctx: Ctx) -> list[RuleResult]:
                 r5.nontrivial += 1
                 r5.fail(f"{g2.short}:reaches-into-queue:{n.attr}", g2.loc(n), f"{g2.short} reaches into the send queue's internals (`{norm(n)}`): removing or re-ordering entries of the underlying heap list breaks the priority/FIFO order of the remaining commands")
     out.append(r5)
+
+    # ---- R6 ---------------------------------------------------------------------------
+    r6 = RuleResult("R6", "the caller's retry budget reaches the state machine", "on every hop from the public send APIs down to ProtocolContext.send_cmd the QosParams handed on is the one received, or a rebuild that carries max_retries over", min_instances=3)
+    qp = repo.classes.get("ramses_tx.typing.QosParams") if hasattr(repo, "classes") else None
+    hops: list[tuple[FuncInfo, ast.Call, ast.expr]] = []
+    seen_f: set[str] = set()
+    todo = [sc]
+    while todo:
+        tgt = todo.pop()
+        if tgt.qualname in seen_f:
+            continue
+        seen_f.add(tgt.qualname)
+        params = [a.arg for a in tgt.node.args.posonlyargs + tgt.node.args.args]
+        fwd = tgt.node.args.kwarg.arg if tgt.node.args.kwarg else None  # a `**kwargs` pass-through hop
+        if "qos" not in params and "qos" not in [a.arg for a in tgt.node.args.kwonlyargs] and fwd is None:
+            continue
+        for site in ctx.cg.callers_of(tgt):
+            c = site.node
+            if not isinstance(c, ast.Call):
+                continue
+            arg = next((k.value for k in c.keywords if k.arg == "qos"), None)
+            if arg is None and "qos" in params:
+                i = params.index("qos") - (1 if params and params[0] in ("self", "cls") else 0)
+                arg = c.args[i] if 0 <= i < len(c.args) else None
+            if arg is None:
+                star = next((k.value for k in c.keywords if k.arg is None), None)
+                ck = site.caller.node.args.kwarg
+                if star is not None and ck is not None and isinstance(star, ast.Name) and star.id == ck.arg:
+                    # forwarded wholesale: fine unless the hop edits the mapping's qos entry
+                    edits = [n for n in own_nodes(site.caller.node) if isinstance(n, (ast.Subscript, ast.Call)) and "qos" in norm(n) and norm(n).startswith(ck.arg) and (isinstance(getattr(n, "ctx", None), (ast.Store, ast.Del)) or (isinstance(n, ast.Call) and isinstance(n.func, ast.Attribute) and n.func.attr in ("pop", "update", "setdefault", "clear")))]
+                    r6.instances += 1
+                    r6.nontrivial += 1
+                    if edits:
+                        r6.fail(f"{site.caller.short}:kwargs-qos-edited", site.caller.loc(edits[0]), f"{site.caller.short} forwards **{ck.arg} but edits its qos entry first (`{norm(edits[0])[:60]}`)")
+                    else:
+                        r6.ok({"hop": f"{site.caller.short} -> {norm(c.func)}", "qos_argument": f"**{ck.arg} (forwarded untouched)"})
+                    todo.append(site.caller)
+                continue  # otherwise the callee's default applies: nothing of the caller's to lose
+            hops.append((site.caller, c, arg))
+            todo.append(site.caller)
+    if not hops:
+        raise AnalysisError("no call passes a qos down to ProtocolContext.send_cmd")
+
+    def _carried(g: FuncInfo, e: ast.expr, depth: int = 0) -> "str | None":
+        """why `e` still holds the retry budget g was given (None = it does not)"""
+        gparams = {a.arg for a in g.node.args.posonlyargs + g.node.args.args + g.node.args.kwonlyargs}
+        if isinstance(e, ast.BoolOp) and isinstance(e.op, ast.Or):
+            return _carried(g, e.values[0], depth)
+        if isinstance(e, ast.Call) and norm(e.func).split(".")[-1] == "QosParams":
+            kw = next((k.value for k in e.keywords if k.arg == "max_retries"), None)
+            if kw is None:
+                reads = [x for a in list(e.args) + [k.value for k in e.keywords] for x in ast.walk(a) if isinstance(x, ast.Attribute) and x.attr.lstrip("_") in ("timeout", "wait_for_reply", "max_retries")]
+                given = [k.arg for k in e.keywords if k.arg in gparams or any(isinstance(x, ast.Name) and x.id in gparams for x in ast.walk(k.value))]
+                if reads or ("max_retries" in gparams and given):
+                    return None  # rebuilt from what the caller gave, without its max_retries
+                return "a fresh QosParams (nothing of the caller's is involved)"
+            names = {x.id for x in ast.walk(kw) if isinstance(x, ast.Name)} | {x.attr.lstrip("_") for x in ast.walk(kw) if isinstance(x, ast.Attribute)}
+            return "rebuilt with max_retries carried over" if "max_retries" in names else None
+        if isinstance(e, ast.Name):
+            defs = [n for n in own_nodes(g.node) if isinstance(n, (ast.Assign, ast.AnnAssign)) and n.value is not None and any(isinstance(t, ast.Name) and t.id == e.id for t in (n.targets if isinstance(n, ast.Assign) else [n.target]))]
+            if not defs:
+                return "the parameter itself" if e.id in gparams else "a non-local name"
+            if depth > 3:
+                return None
+            whys = []
+            for d in defs:
+                # `qos = qos or DEFAULT` / `qos = QosParams(max_retries=qos.max_retries, ..)` refer to the previous binding
+                w = "the parameter itself" if (isinstance(d.value, ast.Name) and d.value.id == e.id) else _carried_value(g, d.value, e.id, depth)
+                if w is None:
+                    return None
+                whys.append(w)
+            return "; ".join(sorted(set(whys)))
+        return "an expression that is not a QosParams rebuild"
+
+    def _carried_value(g: FuncInfo, v: ast.expr, self_name: str, depth: int) -> "str | None":
+        if isinstance(v, ast.BoolOp) and isinstance(v.op, ast.Or) and isinstance(v.values[0], ast.Name) and v.values[0].id == self_name:
+            return "the parameter itself (or the default when none was given)"
+        if isinstance(v, ast.IfExp):
+            a, b = _carried_value(g, v.body, self_name, depth), _carried_value(g, v.orelse, self_name, depth)
+            return None if a is None or b is None else f"{a} | {b}"
+        if isinstance(v, ast.Name) and v.id == self_name:
+            return "the parameter itself"
+        return _carried(g, v, depth + 1)
+
+    for g, c, arg in hops:
+        r6.instances += 1
+        r6.nontrivial += 1
+        why = _carried(g, arg)
+        # a direct overwrite of the budget on the object handed on
+        over = [n for n in own_nodes(g.node) if isinstance(n, (ast.Assign, ast.AugAssign)) and any(isinstance(t, ast.Attribute) and t.attr in ("_max_retries", "max_retries") and norm(t.value) == norm(arg) for t in (n.targets if isinstance(n, ast.Assign) else [n.target]))]
+        if why is None:
+            r6.fail(f"{g.short}:qos-rebuilt-without-max_retries", g.loc(c), f"{g.short} hands `{norm(arg)}` on to {norm(c.func)}(), but on some path that object is a QosParams rebuilt from the caller's values without max_retries: the caller's retry budget silently reverts to the default, so the command is sent a different number of times than 1 + min(max_retries, 3)")
+        elif over:
+            r6.fail(f"{g.short}:max_retries-overwritten", g.loc(over[0]), f"{g.short} overwrites max_retries on the QosParams it hands on (`{norm(over[0])[:70]}`)")
+        else:
+            r6.ok({"hop": f"{g.short} -> {norm(c.func)}", "qos_argument": norm(arg), "carried_because": why})
+    out.append(r6)
     return out
 
 
